@@ -86,7 +86,8 @@ def run(rep, work, tier, seed, props, replay=None):
         c["keep"] = sorted(keep)
         cases.append(c)
     results = gh.run_impl_cases(cases)
-    keep_i = [i for i, r in enumerate(results) if progs.exact_safe(r) and not any(o == "Assertion" for o in r["outcomes"])]
+    from c09 import einsum_retry     # histories of the known C09 finding einsum_backward_single_use are not C07's business
+    keep_i = [i for i, r in enumerate(results) if progs.exact_safe(r) and not any(o == "Assertion" for o in r["outcomes"]) and not einsum_retry(builders[i], r)]
     discarded = len(builders) - len(keep_i)
     kb = [builders[i] for i in keep_i]
     kr = [results[i] for i in keep_i]
